@@ -359,6 +359,31 @@ func (fr *frame) assumeInvs(ct *Contract, sig *types.Signature, args []Val, argT
 	}
 }
 
+// calleeSlice: the postconditions of a callee that may be assumed at a call site. A property proved in
+// several passes (subSlices) proves every clause in exactly one pass, on the callee itself; a caller may
+// rely on the callee's clauses of all passes of the same property.
+func (vc *VC) calleeSlice() map[string]bool {
+	if vc.calleeSl != nil {
+		return vc.calleeSl
+	}
+	sl := map[string]bool{}
+	for t := range vc.slice {
+		sl[t] = true
+		for parent, subs := range subSlices {
+			for _, s := range subs {
+				if t == parent || t == s {
+					sl[parent] = true
+					for _, s2 := range subs {
+						sl[s2] = true
+					}
+				}
+			}
+		}
+	}
+	vc.calleeSl = sl
+	return sl
+}
+
 func (vc *VC) contractApplies(ct *Contract) bool {
 	if ct.NoInline || ct.PureVerdict != "" || ct.PureResult != "" {
 		return true
@@ -369,7 +394,7 @@ func (vc *VC) contractApplies(ct *Contract) bool {
 		}
 	}
 	for _, cl := range ct.Ensures {
-		if cl.inSlice(vc.slice) {
+		if cl.inSlice(vc.calleeSlice()) {
 			return true
 		}
 	}
@@ -508,12 +533,11 @@ func (fr *frame) applyContract(ct *Contract, key string, sig *types.Signature, a
 		if !cl.inSlice(vc.slice) {
 			continue
 		}
-		f := te.formula(cl.E)
 		if !cl.isInv() {
 			// object invariants ([inv]) are established by the constructor and are not re-proved per call
-			vc.oblige("pre", fmt.Sprintf("%s#pre:%s", shortFn(fr.fn), short), pos, "requires "+cl.Text+" ["+cl.Src+"]", alive, f, cl.Tags)
+			vc.oblige("pre", fmt.Sprintf("%s#pre:%s", shortFn(fr.fn), short), pos, "requires "+cl.Text+" ["+cl.Src+"]", alive, te.goalFormula(cl.E), cl.Tags)
 		}
-		vc.assume(alive, f)
+		vc.assume(alive, te.formula(cl.E))
 	}
 	for _, cl := range ct.PanicsUnless {
 		f := te.formula(cl.E)
@@ -562,7 +586,7 @@ func (fr *frame) applyContract(ct *Contract, key string, sig *types.Signature, a
 	}
 	te2.bindLets(ct, false)
 	for _, cl := range ct.Ensures {
-		if !cl.inSlice(vc.slice) {
+		if !cl.inSlice(vc.calleeSlice()) {
 			continue
 		}
 		vc.assume(alive, te2.formula(cl.E))
